@@ -5,6 +5,7 @@ package chain
 
 import (
 	"crypto/sha256"
+	"encoding/json"
 	"errors"
 	"fmt"
 	"strings"
@@ -37,12 +38,14 @@ type Link struct {
 	NbfAbs    *int64     `json:"nbf_abs,omitempty"` // absolute unix seconds (must be in the future: WithNotBefore)
 	ExpAbs    *int64     `json:"exp_abs,omitempty"` // absolute unix seconds (must be in the future: WithExpiration)
 	Missing   bool       `json:"missing,omitempty"`
+	MissStyle int        `json:"miss_style,omitempty"` // how the loader reports that it does not have it: 0 ErrDelegationNotFound, 1 another error, 2 (nil, nil), 3 it panics
 	LoaderErr bool       `json:"loader_err,omitempty"`
 	Decoded   bool       `json:"decoded,omitempty"`
 	Nonce     byte       `json:"nonce,omitempty"`
 	SpareCap  bool       `json:"spare_cap,omitempty"` // hand the policy over as a slice with spare capacity (as left by append)
 	NbfMs     *int64     `json:"nbf_ms,omitempty"`    // milliseconds relative to the instant of construction (clock histories only)
 	ExpMs     *int64     `json:"exp_ms,omitempty"`
+	EncMeta   []EncKV    `json:"enc_meta,omitempty"`
 }
 
 type Hook struct {
@@ -65,12 +68,52 @@ type Inv struct {
 	Decoded  bool     `json:"decoded,omitempty"`
 	Hook     *Hook    `json:"hook,omitempty"`
 	ExpMs    *int64   `json:"exp_ms,omitempty"` // milliseconds relative to the instant of construction (clock histories only)
+	EncMeta  []EncKV  `json:"enc_meta,omitempty"`
+}
+
+// EncKV is an encrypted metadata entry (key = 32 x KeyByte).
+type EncKV struct {
+	K       string `json:"k"`
+	Plain   string `json:"plain"`
+	KeyByte byte   `json:"key_byte"`
+}
+
+func EncKey(b byte) []byte {
+	k := make([]byte, 32)
+	for i := range k {
+		k[i] = b
+	}
+	return k
 }
 
 type Case struct {
 	Inv   Inv      `json:"inv"`
 	Links []Link   `json:"links"`
 	Dev   []string `json:"deviations,omitempty"`
+	// PrefixPols: every link's policy is a prefix of the longest one, and the tokens are built the way a Go
+	// caller attenuates - `child := append(parent, extra...)` on a slice with room to spare - so that all the
+	// policies are views of ONE backing array (lengths differ, capacity reaches to the end of the array)
+	PrefixPols bool `json:"prefix_pols,omitempty"`
+}
+
+// MakePrefixPols rewrites the policies of c so that each is the prefix (of its own length) of the longest one.
+func MakePrefixPols(c *Case) {
+	var master pol.Policy
+	for _, l := range c.Links {
+		if len(l.Pol) > len(master) {
+			master = l.Pol
+		}
+	}
+	if len(master) < 2 {
+		return
+	}
+	for i := range c.Links {
+		c.Links[i].Pol = append(pol.Policy{}, master[:len(c.Links[i].Pol)]...)
+		c.Links[i].PolIPLD = false
+		c.Links[i].SpareCap = false
+		c.Links[i].Decoded = false
+	}
+	c.PrefixPols = true
 }
 
 // NPrincipals is the size of the principal pool. 0..7 are Ed25519; the rest
@@ -97,8 +140,24 @@ func Prin(i int) *keys.Key {
 }
 
 type loader struct {
-	m    map[cid.Cid]*delegation.Token
-	errs map[cid.Cid]bool
+	m     map[cid.Cid]*delegation.Token
+	errs  map[cid.Cid]bool
+	style map[cid.Cid]int
+}
+
+// miss answers for a delegation the loader does not hold, in one of the ways real loaders do. Whatever the
+// style, the delegation has not been loaded; a loader that answers (nil, nil) or panics may well make the
+// check panic - that is a denial, not an approval.
+func miss(style int) (*delegation.Token, error) {
+	switch style {
+	case 1:
+		return nil, errors.New("verif: no such delegation")
+	case 2:
+		return nil, nil
+	case 3:
+		panic("verif: loader has no such delegation")
+	}
+	return nil, delegation.ErrDelegationNotFound
 }
 
 func (l *loader) GetDelegation(c cid.Cid) (*delegation.Token, error) {
@@ -107,7 +166,7 @@ func (l *loader) GetDelegation(c cid.Cid) (*delegation.Token, error) {
 	}
 	t, ok := l.m[c]
 	if !ok {
-		return nil, delegation.ErrDelegationNotFound
+		return miss(l.style[c])
 	}
 	return t, nil
 }
@@ -137,7 +196,10 @@ func nonce(tag string, b byte, n int) []byte {
 func dur(sec int64) time.Duration { return time.Duration(sec) * time.Second }
 
 // BuildLink constructs (and optionally round-trips) one delegation.
-func BuildLink(l Link) (*delegation.Token, cid.Cid, []byte, error) {
+func BuildLink(l Link) (*delegation.Token, cid.Cid, []byte, error) { return BuildLinkWith(l, nil) }
+
+// BuildLinkWith is BuildLink with the policy value supplied by the caller (a view of a shared array).
+func BuildLinkWith(l Link, prebuilt policy.Policy) (*delegation.Token, cid.Cid, []byte, error) {
 	cmd, err := command.Parse(l.Cmd)
 	if err != nil {
 		return nil, cid.Undef, nil, fmt.Errorf("command %q: %w", l.Cmd, err)
@@ -145,6 +207,9 @@ func BuildLink(l Link) (*delegation.Token, cid.Cid, []byte, error) {
 	p, err := l.Pol.Build(l.PolIPLD)
 	if err != nil {
 		return nil, cid.Undef, nil, fmt.Errorf("policy: %w", err)
+	}
+	if prebuilt != nil {
+		p = prebuilt
 	}
 	if l.SpareCap {
 		// a caller that assembled its policy with append hands over a slice whose
@@ -162,6 +227,9 @@ func BuildLink(l Link) (*delegation.Token, cid.Cid, []byte, error) {
 	}
 	if l.Exp != nil && l.ExpAbs == nil {
 		opts = append(opts, delegation.WithExpirationIn(dur(*l.Exp)))
+	}
+	for _, e := range l.EncMeta {
+		opts = append(opts, delegation.WithEncryptedMetaBytes(e.K, []byte(e.Plain), EncKey(e.KeyByte)))
 	}
 	if l.NbfMs != nil {
 		opts = append(opts, delegation.WithNotBeforeIn(time.Duration(*l.NbfMs)*time.Millisecond))
@@ -210,9 +278,37 @@ func BuildArgs(kvs []val.KV) (*args.Args, error) {
 // Build constructs every token of the case.
 func Build(c Case) (*Built, error) {
 	b := &Built{}
-	ld := &loader{m: map[cid.Cid]*delegation.Token{}, errs: map[cid.Cid]bool{}}
+	ld := &loader{m: map[cid.Cid]*delegation.Token{}, errs: map[cid.Cid]bool{}, style: map[cid.Cid]int{}}
+	var master policy.Policy
+	if c.PrefixPols {
+		var longest pol.Policy
+		for _, l := range c.Links {
+			if len(l.Pol) > len(longest) {
+				longest = l.Pol
+			}
+		}
+		// only if every policy really is a prefix of the longest (a case mutated afterwards may not be)
+		ok := true
+		for _, l := range c.Links {
+			for j := range l.Pol {
+				a, _ := json.Marshal(l.Pol[j])
+				b, _ := json.Marshal(longest[j])
+				if string(a) != string(b) {
+					ok = false
+				}
+			}
+		}
+		if m, err := longest.Build(false); err == nil && ok {
+			master = make(policy.Policy, len(m), len(m)+4)
+			copy(master, m)
+		}
+	}
 	for i, l := range c.Links {
-		t, id, _, err := BuildLink(l)
+		var pre policy.Policy
+		if master != nil && len(l.Pol) > 0 && len(l.Pol) <= len(master) {
+			pre = master[:len(l.Pol)] // same array, capacity to the end of it
+		}
+		t, id, _, err := BuildLinkWith(l, pre)
 		if err != nil {
 			return nil, fmt.Errorf("link %d: %w", i, err)
 		}
@@ -231,6 +327,7 @@ func Build(c Case) (*Built, error) {
 	for i, l := range c.Links {
 		if l.Missing {
 			delete(ld.m, b.Cids[i])
+			ld.style[b.Cids[i]] = l.MissStyle
 		}
 	}
 	b.Loader = ld
@@ -267,6 +364,9 @@ func BuildInv(iv Inv, prf []cid.Cid) (*invocation.Token, error) {
 	}
 	for _, e := range iv.Meta {
 		opts = append(opts, invocation.WithMeta(e.K, e.V.Node()))
+	}
+	for _, e := range iv.EncMeta {
+		opts = append(opts, invocation.WithEncryptedMetaString(e.K, e.Plain, EncKey(e.KeyByte)))
 	}
 	if iv.Cause {
 		cc := val.CidOf([]byte("cause"))
